@@ -45,6 +45,7 @@ type HarnessSpec struct {
 	MaxSteps int               `json:"max_steps"`
 	Tiers    []string          `json:"tiers"` // tiers in which the harness runs (default: all)
 	Cross    bool              `json:"cross_solver"` // re-decide this harness on a second solver and diff the verdicts
+	Concrete bool              `json:"concrete_hash"` // compute real SHA-256 for concrete preimages (golden differential runs)
 }
 
 type PropSpec struct {
@@ -490,6 +491,7 @@ func cmdRun(prop string, o runOpts) int {
 		if h.MaxSteps > 0 {
 			c.Machine.MaxSteps = h.MaxSteps
 		}
+		c.Machine.ConcreteHash = h.Concrete
 		st, err := symgo.Explore(ld.Prog, fn, []*ssa.Package{hpkg}, c)
 		if err != nil {
 			fmt.Fprintln(os.Stderr, "vcheck:", err)
